@@ -73,8 +73,9 @@ func uwidth(t types.Type) int {
 }
 
 type bpEval struct {
-	info  *types.Info
-	input types.Object // the input slice parameter
+	info    *types.Info
+	input   types.Object          // the input slice parameter
+	scalars map[types.Object]bool // identifiers denoting the (single) scalar input: bit b of it is in(0,b)
 }
 
 func (e *bpEval) eval(x ast.Expr) (vec, error) {
@@ -99,6 +100,15 @@ func (e *bpEval) eval(x ast.Expr) (vec, error) {
 	switch n := x.(type) {
 	case *ast.ParenExpr:
 		return e.eval(n.X)
+	case *ast.Ident:
+		if e.scalars != nil && e.scalars[e.info.Uses[n]] {
+			out := make(vec, w)
+			for b := 0; b < w; b++ {
+				out[b] = bit{k: 2, i: 0, b: b}
+			}
+			return out, nil
+		}
+		return nil, fmt.Errorf("identifier %s is not the input", n.Name)
 	case *ast.IndexExpr:
 		id, ok := n.X.(*ast.Ident)
 		if !ok || e.info.Uses[id] != e.input {
@@ -335,10 +345,20 @@ func bpDispatch(c *Ctx, p *packages.Package, entry string) (map[int]*ast.FuncDec
 }
 
 func checkC17(c *Ctx) {
+	c.R.Explanation = "Bit-provenance abstract interpretation of internal/bitpack (go/ast + go/types constant evaluation): every output bit of each pack/unpack function is evaluated to 0, 1, 'bit b of input element i' or unknown; obligations: pack_W output bit 8j+k is exactly input bit (i,b) with i*W+b = 8j+k (LSB-first little-endian), depends on no bit >= W; unpack_W element i bit b<W is stream bit i*W+b, higher bits 0; the two maps are mutually inverse bijections; Pack/Unpack dispatch case W to the function proven for W; the call sites in rle pass an 8-element buffer and the same width on both sides."
+	bpCore(c)
+	c.R.Extra["checker_cmd"] = "/verif/bin/verif check C17"
+	c.R.Extra["trusted_base"] = []string{"go/parser, go/types and go/constant (parsing, typing, constant evaluation of masks and shift counts)",
+		"the bit-level transfer functions for & | ^ &^ << >> and integer conversion in /verif/checker/bp.go (about 80 lines)",
+		"Go semantics of append and slice literals (element order)"}
+	c.R.assume("C17's statement about 8-value groups of width 1-4; width 0 and widths > 4 are dispatched to the default cases (no bytes / empty slice) and are outside the property")
+}
+
+// bpCore emits the BP obligations (shared by C17 and C07).
+func bpCore(c *Ctx) {
 	r, u := c.R, c.U
 	p := u.Pkgs[bitpackPath]
 	rl := u.Pkgs[rlePath]
-	r.Explanation = "Bit-provenance abstract interpretation of internal/bitpack (go/ast + go/types constant evaluation): every output bit of each pack/unpack function is evaluated to 0, 1, 'bit b of input element i' or unknown; obligations: pack_W output bit 8j+k is exactly input bit (i,b) with i*W+b = 8j+k (LSB-first little-endian), depends on no bit >= W; unpack_W element i bit b<W is stream bit i*W+b, higher bits 0; the two maps are mutually inverse bijections; Pack/Unpack dispatch case W to the function proven for W; the call sites in rle pass an 8-element buffer and the same width on both sides."
 	packs, pc := bpDispatch(c, p, "Pack")
 	unpacks, uc := bpDispatch(c, p, "Unpack")
 	r.count("BP/dispatch-cases", pc+uc)
@@ -456,18 +476,6 @@ func checkC17(c *Ctx) {
 	r.floor("BP/functions", 8, "pack1..4, unpack1..4")
 	r.floor("BP/dispatch-cases", 8, "4 cases in Pack and 4 in Unpack")
 	r.floor("BP/callsites", 2, "Pack in the encoder, Unpack in the decoder")
-	nd := 0
-	for _, o := range r.Obs {
-		if o.Status == Discharged {
-			nd++
-		}
-	}
-	r.Extra["checker_cmd"] = "/verif/bin/verif check C17"
-	r.Extra["trusted_base"] = []string{"go/parser, go/types and go/constant (parsing, typing, constant evaluation of masks and shift counts)",
-		"the bit-level transfer functions for & | ^ &^ << >> and integer conversion in /verif/checker/bp.go (about 80 lines)",
-		"Go semantics of append and slice literals (element order)"}
-	r.assume("C17's statement about 8-value groups of width 1-4; width 0 and widths > 4 are dispatched to the default cases (no bytes / empty slice) and are outside the property")
-	_ = nd
 }
 
 // bpStream evaluates the single return statement of a pack/unpack function.
